@@ -77,6 +77,8 @@ def data_mutations(sts, is_data):
     """in-place effects on arrays selected by `is_data`: item / slice / augmented assignment, NumPy's in-place functions
     (first argument), in-place methods, and `out=` targets"""
     bad = []
+    is_data0 = is_data
+    is_data = lambda t: any(is_data0(b) for b in fx.branches(t))       # `v = {} if p is None else p; v[k] = ...` mutates p on one branch
     for st in sts:
         for e in st.events:
             if e[0] == "mutate" and is_data(e[1]):
@@ -157,8 +159,10 @@ def fit_obligations():
                 if e[0] == "call" and isinstance(e[6], tuple) and e[6][0] == "attr" and e[6][2] in MUTATING_METHODS \
                         and isinstance(e[6][1], tuple) and e[6][1][:2] == ("attr", SELF) and e[6][1][2] in hp:
                     mut_hp.append(f"{e[6][1][2]}.{e[6][2]}(...)")
-                if e[0] == "mutate" and isinstance(e[1], tuple) and e[1][:2] == ("attr", SELF) and e[1][2] in hp:
-                    mut_hp.append(f"{e[1][2]} mutated in place")
+                if e[0] == "mutate":
+                    for b_ in fx.branches(e[1]):
+                        if isinstance(b_, tuple) and b_[:2] == ("attr", SELF) and b_[2] in hp:
+                            mut_hp.append(f"{b_[2]} mutated in place")
         ob("no constructor hyper-parameter is written by fit (no assignment, no set_params, no in-place mutation of a hyper-parameter object)",
            not (written & hp) and not setp and not mut_hp, {"written": sorted(written & hp), "mutated": sorted(set(mut_hp))})
         # in-place effects on the caller's data
@@ -182,7 +186,9 @@ def predict_effects():
                 continue
             hp = set(inspect.signature(cls.__init__).parameters) - {"self"}
             written = {e[2] for st in sts for e in st.events if e[0] == "store" and e[1] == SELF}
-            muts = [fx.show(e[2])[:60] for st in sts for e in st.events if e[0] == "mutate" and _caller_data(e[1])]
+            muts = [fx.show(e[2])[:60] for st in sts for e in st.events if e[0] == "mutate" and any(_caller_data(b_) for b_ in fx.branches(e[1]))]
+            muts += [f"{b_[2]} (hyper-parameter object) mutated in place" for st in sts for e in st.events if e[0] == "mutate"
+                     for b_ in fx.branches(e[1]) if isinstance(b_, tuple) and b_[:2] == ("attr", SELF) and b_[2] in hp]
             fitted_written = {a for a in written if a.endswith("_")}
             obs.append(Ob(f"{cls.__name__}.{meth}: writes no hyper-parameter, no fitted attribute, and never mutates the caller's arrays",
                           PROVED if not (written & hp) and not muts and not fitted_written else REFUTED, "fx-frame", "P",
@@ -261,7 +267,11 @@ def native_histories(seed, tier):
           lambda: KernelRIM(n_clusters=2, max_iter=3, random_state=3, batch_size=6), lambda: LinearWasserstein(n_clusters=2, max_iter=3, random_state=3),
           lambda: MLPMMD(n_clusters=2, max_iter=3, random_state=3, n_hidden_dim=4), lambda: SparseLinearMMD(n_clusters=2, max_iter=3, random_state=3, alpha=0.1),
           lambda: SparseMLPMMD(n_clusters=2, max_iter=3, random_state=3, n_hidden_dim=3), lambda: CategoricalMMD(n_clusters=2, max_iter=3, random_state=3),
-          lambda: Kauri(max_clusters=3, random_state=3, max_features=2), lambda: Douglas(n_clusters=2, max_iter=3, random_state=3, gemini="mmd_ova")]
+          lambda: Kauri(max_clusters=3, random_state=3, max_features=2), lambda: Douglas(n_clusters=2, max_iter=3, random_state=3, gemini="mmd_ova"),
+          # option objects given by the user (parameter dicts without every entry): they must come back untouched
+          lambda: LinearMMD(n_clusters=2, max_iter=3, random_state=3, kernel="polynomial", kernel_params={"degree": 2}),
+          lambda: MLPMMD(n_clusters=2, max_iter=3, random_state=3, n_hidden_dim=3, kernel="rbf", kernel_params={}),
+          lambda: SparseLinearMMD(n_clusters=2, max_iter=3, random_state=3, alpha=0.1, kernel="sigmoid", kernel_params={"coef0": 0.5})]
 
     def state(m):
         if hasattr(m, "_get_weights"):
@@ -272,7 +282,8 @@ def native_histories(seed, tier):
         return len(a) == len(b) and all(np.array_equal(u, v) for u, v in zip(a, b))
     for f in mk:
         m0 = f()
-        name = type(m0).__name__ + ("+mlcl" if "_batchify" in vars(m0) else "") + ("+groups" if getattr(m0, "groups", None) else "")
+        name = type(m0).__name__ + ("+mlcl" if "_batchify" in vars(m0) else "") + ("+groups" if getattr(m0, "groups", None) else "") \
+            + (f"+kernel_params={m0.kernel_params}" if getattr(m0, "kernel_params", None) is not None else "")
         try:
             obs.append(_history_one(f, name, X1, X2, state, same))
         except Exception as e:
@@ -296,10 +307,10 @@ def _history_one(f, name, X1, X2, state, same):
             ok = True
             why = []
             m = f()
+            p0 = {k: repr(v) for k, v in m.get_params().items()}      # as constructed: option objects (dicts, masks, lists) included, by value
             m.fit(X2)
             m.predict(X2)
             m.score(X2)
-            p0 = m.get_params()
             m.fit(X1)
             ok &= same(state(m), ref) or why.append("after fit on other data + predict + score") is None and False
             m.fit(X1)
@@ -308,7 +319,7 @@ def _history_one(f, name, X1, X2, state, same):
             if not decorated:
                 c = clone(m)
                 ok &= same(state(c.fit(X1)), ref) or why.append("clone") is None and False
-            ok &= {k: repr(v) for k, v in m.get_params().items()} == {k: repr(v) for k, v in p0.items()} or why.append("hyper-parameters changed by fit") is None and False
+            ok &= {k: repr(v) for k, v in m.get_params().items()} == p0 or why.append("hyper-parameters changed by fit / predict / score (compared by value with the constructed estimator)") is None and False
             if hasattr(m, "path"):
                 r1 = f().path(X1, alpha_multiplier=2.0)
                 m2 = f()
@@ -327,6 +338,8 @@ def _history_one(f, name, X1, X2, state, same):
             orig = m4.get_params()
             alt = {}
             for k_, v_ in (("base_kernel", "rbf"), ("kernel", "rbf"), ("metric", "manhattan"), ("gemini", "mmd_ovo"), ("reg", 0.5)):
+                if k_ == "kernel" and orig.get("kernel_params"):
+                    continue            # the other kernel would not take this model's kernel_params
                 if k_ in orig and orig[k_] != v_ and not alt:
                     alt[k_] = v_
             if alt and not decorated:
